@@ -69,6 +69,9 @@ type parserState struct {
 	// querySatisfied is true if both path and value of any queries passed to
 	// consumeAny are satisfied.
 	querySatisfied bool
+	// failed is set once a value could not be parsed. Containers stop at it
+	// instead of treating the bytes consumed by the failed value as a value.
+	failed bool
 }
 
 // query holds information about a combination of {"key": "val"} that we're trying
@@ -125,6 +128,9 @@ func Parse(queryType string, raw []byte) (parsed, inspected, firstToken int, que
 
 	qs := queries[queryType]
 	got := p.consumeAny(raw, qs, 0)
+	if p.failed {
+		got = 0
+	}
 	return got, p.ib, p.firstToken, p.querySatisfied
 }
 
@@ -133,6 +139,7 @@ func (p *parserState) reset() {
 	p.currPath = p.currPath[0:0]
 	p.firstToken = TokInvalid
 	p.querySatisfied = false
+	p.failed = false
 }
 
 func (p *parserState) consumeSpace(b []byte) (n int) {
@@ -276,7 +283,7 @@ func (p *parserState) consumeArray(b []byte, qs []query, lvl int) (n int) {
 			return n + 1
 		}
 		innerParsed := p.consumeAny(b[n:], qs, lvl)
-		if innerParsed == 0 {
+		if innerParsed == 0 || p.failed {
 			return 0
 		}
 		n += innerParsed
@@ -349,7 +356,7 @@ func (p *parserState) consumeObject(b []byte, qs []query, lvl int) (n int) {
 			return 0
 		}
 
-		if valLen := p.consumeAny(b[n:], qs, lvl); valLen == 0 {
+		if valLen := p.consumeAny(b[n:], qs, lvl); valLen == 0 || p.failed {
 			return 0
 		} else {
 			if queryMatched != -1 {
@@ -433,6 +440,7 @@ func (p *parserState) consumeAny(b []byte, qs []query, lvl int) (n int) {
 		p.querySatisfied = true
 	}
 	if rv <= 0 {
+		p.failed = true
 		return n
 	}
 	n += rv
